@@ -10,6 +10,7 @@ import (
 	"sort"
 	"strings"
 	"sync"
+	"syscall"
 	"time"
 
 	"verif/harness/evid"
@@ -122,6 +123,7 @@ type cliRun struct {
 	Stdin  string   `json:"stdin"`
 	Exit   int      `json:"exit"`
 	Signal bool     `json:"killed_by_signal"`
+	Pipe   bool     `json:"killed_by_sigpipe"`
 	Stdout string   `json:"stdout"`
 	Stderr string   `json:"stderr"`
 }
@@ -146,6 +148,12 @@ func runCLI(bin, dir string, inv cliInv) cliRun {
 		f, _ := os.OpenFile("/dev/full", os.O_WRONLY, 0)
 		defer f.Close()
 		cmd.Stdout = f
+	case "broken":
+		// a pipe whose reader has gone before the first write: EPIPE (the Go runtime turns it into SIGPIPE for fd 1)
+		pr, pw, _ := os.Pipe()
+		pr.Close()
+		defer pw.Close()
+		cmd.Stdout = pw
 	case "closed":
 		f, _ := os.CreateTemp(dir, "closed")
 		f.Close()
@@ -189,6 +197,10 @@ func runCLI(bin, dir string, inv cliInv) cliRun {
 	if ps := cmd.ProcessState; ps != nil {
 		out.Exit = ps.ExitCode()
 		out.Signal = ps.ExitCode() == -1
+		if ws, ok := ps.Sys().(syscall.WaitStatus); ok && ws.Signaled() && ws.Signal() == syscall.SIGPIPE {
+			// the conventional end of a process that writes to a pipe nobody reads: not a crash, not success either
+			out.Signal, out.Pipe, out.Exit = false, true, 128+int(syscall.SIGPIPE)
+		}
 	}
 	return out
 }
@@ -446,7 +458,7 @@ func checkCLIState(r *evid.Run, bin string, pool *wproto.Pool, s *cliState) {
 		}
 		r.Mismatch("cli:"+kind+":"+inv.Sub, fmt.Sprintf("%s: exit=%d, expected %s (%s); stderr=%q", desc, run.Exit, map[bool]string{true: "0", false: "non-zero"}[s.Exit0], s.Why, firstLine(run.Stderr)), rec)
 	}
-	if !s.Exit0 && run.Exit != 0 && strings.TrimSpace(run.Stderr) == "" {
+	if !s.Exit0 && run.Exit != 0 && strings.TrimSpace(run.Stderr) == "" && !run.Pipe {
 		r.Mismatch("cli:no-diagnostic:"+s.Why+":"+inv.Sub, fmt.Sprintf("%s: exit=%d but nothing on stderr", desc, run.Exit), rec)
 	}
 	if !s.Called || inv.Sub == "template" || inv.MTimeout {
